@@ -264,6 +264,25 @@ def check_dir(ctx, out, spec, sorts=(True, False), label="rand"):
     try:
         root = os.path.join(base, "root")
         create(root, spec)
+        # scan - rewrite files in place - scan: the directory is scanned once BEFORE every second file gets other content
+        # (size) and another modification time; rewriting a file does not touch its folder, so nothing that an earlier scan
+        # remembered about a folder may be used by the scans that are judged below
+        try:
+            load_tree_from_fs(root, sort=True)
+            load_tree_from_fs(Path(root), sort=False)
+        except Exception:  # noqa  (judged below)
+            pass
+        k_ = 0
+        for dp, dns, fns in os.walk(root):
+            for fn in sorted(fns):
+                k_ += 1
+                if k_ % 2 == 0:
+                    fp_ = os.path.join(dp, fn)
+                    st_ = os.stat(fp_)
+                    with open(fp_, "ab") as f_:
+                        f_.write(b"+++")
+                    os.utime(fp_, (st_.st_atime, st_.st_mtime + 7.25))
+                    out.dist["files_rewritten_after_first_scan"] += 1
         listing = read_listing(root)
         sur = {m: i for i, m in enumerate(sorted(mtimes_of(listing, set())))}
         n_entries, height, n_empty = spec_stats(spec)
